@@ -473,7 +473,7 @@ impl BinaryClassification<&[bool]> for &[Pr] {
         let mut s0 = -1.0;
 
         for (s, t) in tuples {
-            if (*s - s0).abs() > 1e-10 {
+            if *s != s0 {
                 tps_fps.push((tp, fp));
                 thresholds.push(s);
                 s0 = *s;
